@@ -495,6 +495,10 @@ func (g *pg) stmt(depth int) []lang.Stmt {
 			var x lang.Expr = lang.Lit{V: lang.Float(float64(rapid.Int64Range(0, 40).Draw(g.t, "sq")) / 4)}
 			if !g.o.NoSqrtFold && g.chance("sqint", 50) {
 				x = g.intLit()
+			} else if g.chance("sqnonsquare", 50) {
+				// an integer literal that is no perfect square: its root is a float
+				// with or without the optimizer (not the open finding)
+				x = lang.Lit{V: lang.Int(rapid.SampledFrom([]int64{2, 3, 5, 6, 7, 8, 10, 12, 15, 24, 99, 300, 65534}).Draw(g.t, "nonsquare"))}
 			}
 			return []lang.Stmt{lang.ExprStmt{X: lang.Call{Fn: "trace", Args: []lang.Expr{lang.Binary{Op: "+", L: lang.Unary{Op: "√", X: x}, R: g.intLit()}}}}}
 		case 2:
